@@ -5,19 +5,47 @@
 (* behaviour is a schedule the real goroutines can be stepped through.         *)
 EXTENDS Integers, FiniteSets, Sequences, TLC
 
-CONSTANTS Waiters, Setters, WOff, SVal, MaxChan, CanClose, Cancels
+\* (the @type comments are Apalache's annotations, used by NotifyInd.tla; TLC ignores them)
+CONSTANTS
+  \* @type: Set(Str);
+  Waiters,
+  \* @type: Set(Str);
+  Setters,
+  \* @type: Str -> Int;
+  WOff,
+  \* @type: Str -> Int;
+  SVal,
+  \* @type: Int;
+  MaxChan,
+  \* @type: Bool;
+  CanClose,
+  \* @type: Set(Str);
+  Cancels,
+  \* @type: Bool;
+  ProbeFirst      \* negative control: the waiter probes BEFORE taking the token (seeded change S39)
 
 VARIABLES
+  \* @type: Int;
   next,      \* atomic nextOffset
+  \* @type: Int;
   token,     \* barrier channel content: 0 = empty (someone holds it), c>0 = holds channel id c ; -1 = closed
+  \* @type: Set(Int);
   closedCh,  \* set of broadcast channel ids that are closed
+  \* @type: Int;
   fresh,     \* next fresh channel id
+  \* @type: Str -> Str;
   pc,        \* per process program counter
+  \* @type: Str -> Int;
   hold,      \* per process: channel id obtained from the barrier
+  \* @type: Str -> Bool;
   upd,       \* per waiter: result of the probe
+  \* @type: Set(Str);
   cancelled, \* set of waiters whose ctx is done
+  \* @type: Str -> Str;
   ret,       \* per waiter: "" | "ok" | "closed" | "ctx"
+  \* @type: Str -> Str;
   why,       \* ghost: per waiter reason for an ok return
+  \* @type: Seq({p: Str, a: Str});
   hist       \* history variable: the schedule so far (hidden by VIEW), for replay on the real code
 vars == <<next, token, closedCh, fresh, pc, hold, upd, cancelled, ret, why, hist>>
 view == <<next, token, closedCh, fresh, pc, hold, upd, cancelled, ret, why>>
@@ -43,12 +71,18 @@ WFast(w) == /\ Log(w, "WFast")
                     /\ why' = [why EXCEPT ![w] = "fast"]
                ELSE /\ pc' = [pc EXCEPT ![w] = "acquire"] /\ UNCHANGED <<ret, why>>
             /\ UNCHANGED <<next, token, closedCh, fresh, hold, upd, cancelled>>
+\* negative control only: the re-check of the slow path runs before the token is taken
+WProbeEarly(w) == /\ Log(w, "WProbeEarly")
+                  /\ ProbeFirst /\ pc[w] = "acquire"
+                  /\ upd' = [upd EXCEPT ![w] = next > WOff[w]]
+                  /\ pc' = [pc EXCEPT ![w] = "acquire2"]
+                  /\ UNCHANGED <<next, token, closedCh, fresh, hold, cancelled, ret, why>>
 
 WAcquire(w) == /\ Log(w, "WAcquire")
-               /\ pc[w] = "acquire"
+               /\ pc[w] = (IF ProbeFirst THEN "acquire2" ELSE "acquire")
                /\ \/ /\ token > 0
                      /\ hold' = [hold EXCEPT ![w] = token] /\ token' = 0
-                     /\ pc' = [pc EXCEPT ![w] = "probe"] /\ UNCHANGED <<ret, why>>
+                     /\ pc' = [pc EXCEPT ![w] = IF ProbeFirst THEN "release" ELSE "probe"] /\ UNCHANGED <<ret, why>>
                   \/ /\ token = -1
                      /\ pc' = [pc EXCEPT ![w] = "done"] /\ ret' = [ret EXCEPT ![w] = "closed"]
                      /\ UNCHANGED <<hold, token, why>>
@@ -123,11 +157,11 @@ CCloseBar == /\ Log("closer", "CCloseBar")
              /\ token' = -1 /\ pc' = [pc EXCEPT !["closer"] = "done"]
              /\ UNCHANGED <<next, closedCh, fresh, hold, upd, cancelled, ret, why>>
 
-Next == \/ \E w \in Waiters : WFast(w) \/ WAcquire(w) \/ WProbe(w) \/ WRelease(w) \/ WWake(w) \/ Cancel(w)
+Next == \/ \E w \in Waiters : WFast(w) \/ WProbeEarly(w) \/ WAcquire(w) \/ WProbe(w) \/ WRelease(w) \/ WWake(w) \/ Cancel(w)
         \/ \E s \in Setters : SAcquire(s) \/ SStore(s) \/ SBcast(s) \/ SRenew(s)
         \/ CAcquire \/ CBcast \/ CCloseBar
 
-Fair == /\ \A w \in Waiters : WF_vars(WFast(w) \/ WAcquire(w) \/ WProbe(w) \/ WRelease(w) \/ WWake(w))
+Fair == /\ \A w \in Waiters : WF_vars(WFast(w) \/ WProbeEarly(w) \/ WAcquire(w) \/ WProbe(w) \/ WRelease(w) \/ WWake(w))
         /\ \A s \in Setters : WF_vars(SAcquire(s) \/ SStore(s) \/ SBcast(s) \/ SRenew(s))
         /\ WF_vars(CAcquire \/ CBcast \/ CCloseBar)
 Spec == Init /\ [][Next]_vars /\ Fair
